@@ -32,6 +32,9 @@ type Profile struct {
 	TakeRates   []string
 	ShortUnbond float64 // probability of a short unbonding time (maturities inside the run)
 	BoundaryTo  []string // preferred deadline kinds for boundary-aimed block gaps
+	DecayBias   float64  // probability that an asset decays (default 0.35)
+	MinAssets   int      // at least this many assets (C19: several assets and reward denoms per validator)
+	PExport     float64  // per block: export/import (hard fork) at the block boundary
 	Clean       map[string]bool // preconditions of open known findings the generator must avoid (clean mode)
 }
 
@@ -66,6 +69,9 @@ func genConfig(rng *RNG, p *Profile) Config {
 	c.Delegators = rng.Range(2, 6)
 	c.Natives = rng.Range(1, 3)
 	na := rng.Range(1, 4)
+	if p.MinAssets > na {
+		na = p.MinAssets
+	}
 	anyGenesis := false
 	for i := 0; i < na; i++ {
 		a := AssetCfg{}
@@ -92,7 +98,11 @@ func genConfig(rng *RNG, p *Profile) Config {
 			a.WeightMax = a.Weight
 		}
 		a.TakeRate = p.TakeRates[rng.Intn(len(p.TakeRates))]
-		if rng.Chance(0.35) {
+		db := 0.35
+		if p.DecayBias > 0 {
+			db = p.DecayBias
+		}
+		if rng.Chance(db) {
 			a.ChangeRate = []string{"0.5", "0.9", "0.999", "1.1", "2"}[rng.Intn(5)]
 			a.ChangeIntvlNs = []int64{int64(time.Second), int64(7 * time.Second), int64(time.Minute), int64(time.Hour)}[rng.Intn(4)]
 		} else {
@@ -453,6 +463,9 @@ func GenSchedule(prop string, seed, run uint64, p *Profile) *Schedule {
 		for i := 0; i < nops; i++ {
 			b.Ops = append(b.Ops, g.genOp())
 		}
+		if p.PExport > 0 && rng.Chance(p.PExport) {
+			b.ExportImport = true
+		}
 		if rng.Chance(p.PCrash) {
 			b.Crash = []string{"before_commit", "after_commit"}[rng.Intn(2)]
 		}
@@ -515,6 +528,28 @@ func profileFor(prop string) *Profile {
 		p.SameBlock = 0.7
 		p.PBoundary = 0.4
 		p.PSlash = 0.1
+	case "C19":
+		p.PCrash = 0.08
+		p.MaxBlocks = 35
+		p.FeeTopups = true
+		p.W["donate"] = 8
+		p.W["claim"] = 14
+		p.MinAssets = 3
+	case "C18":
+		p.PExport = 0.12
+		p.MaxBlocks = 40
+		p.W["undelegate"], p.W["redelegate"] = 20, 20
+		p.SameBlock = 0.7
+		p.PSlash = 0.08
+		p.W["gov_update"] = 5
+	case "C14":
+		p.Inflation = 0.8
+		p.W["gov_update"], p.W["gov_create"] = 12, 4
+		p.BoundaryTo = []string{"decay", "decay", "start", "takerate"}
+		p.PBoundary = 0.4
+		p.PHalt = 0.03
+		p.PSlash, p.PEvidence, p.PDowntime = 0.02, 0.01, 0.01
+		p.DecayBias = 0.8
 	case "C13":
 		// clean configuration: no value-changing events between accrual and claim (those are C12)
 		p.Inflation = 1
